@@ -1,2 +1,106 @@
-/- placeholder: the C16 driver is not built yet -/
-def main : IO Unit := IO.println "C16: driver not built yet"
+/- C16 line-protocol driver: prints `model <TAB> spec` for each case line (see harness/c16.cpp for the ops). -/
+import Tetl.Proto
+import Tetl.C16.Model
+import Tetl.C16.Spec
+namespace Tetl.C16.Driver
+open Tetl Tetl.Proto Tetl.C16
+
+def fmtOf (t : Int) : Option Fmt := if t == 32 then some b32 else if t == 64 then some b64 else none
+
+/-- bit patterns arrive as (possibly negative two's-complement) integers -/
+def toBits (F : Fmt) (i : Int) : Nat := (i % (2 ^ F.width : Nat)).toNat
+
+def fb (F : Fmt) (b : Nat) : String := if F.isNaN b then "nan" else toString b
+def fbool (b : Bool) : String := if b then "1" else "0"
+def fopt : Option Int → String
+  | some i => toString i
+  | none => "*"
+def fE {α : Type} (f : α → String) : Except Err α → String
+  | .ok a => f a
+  | .error _ => "notconst"
+
+def unaryFns : List String :=
+  ["floor", "ceil", "trunc", "round", "rint", "lrint", "llrint", "fabs", "abs", "signbit", "isnan", "isinf", "isfinite"]
+
+/-- (model, spec) of a unary exact function; `none` = unknown function -/
+def unary (F : Fmt) (p : Model.Path) (f : String) (x : Nat) : Option (String × String) :=
+  match f with
+  | "floor" => some (fE (fb F) (Model.floor F p x), fb F (F.floor x))
+  | "ceil" => some (fE (fb F) (Model.ceil F p x), fb F (F.ceil x))
+  | "trunc" => some (fE (fb F) (Model.trunc F p x), fb F (F.trunc x))
+  | "round" => some (fE (fb F) (Model.round F p x), fb F (F.round x))
+  | "rint" => some (fE (fb F) (Model.rint F p x), fb F (F.rint x))
+  | "lrint" => some (fE fopt (Model.lrint F 64 p x), fopt (F.lrint 64 x))
+  | "llrint" => some (fE fopt (Model.lrint F 64 p x), fopt (F.lrint 64 x))
+  | "fabs" => some (fb F (Model.absImpl F x), fb F (F.fabs x))
+  | "abs" => some (fb F (Model.absImpl F x), fb F (F.fabs x))
+  | "signbit" => some (fbool (Model.signbit F p x), fbool (F.signbit x))
+  | "isnan" => some (fbool (F.isNaN x), fbool (F.isNaN x))
+  | "isinf" => some (fbool (F.isInf x), fbool (F.isInf x))
+  | "isfinite" => some (fbool (Model.isfinite F x), fbool (F.isFinite x))
+  | _ => none
+
+/-- (model, spec) of a binary exact function -/
+def binary (F : Fmt) (p : Model.Path) (f : String) (x y : Nat) : Option (String × String) :=
+  match f with
+  | "copysign" => some (fb F (Model.copysign F p x y), fb F (F.copysign x y))
+  | "fmin" => some (fb F (Model.fmin F x y), if F.zerosDiffer x y || F.isSNaN x || F.isSNaN y then "*" else fb F (F.fmin x y))
+  | "fmax" => some (fb F (Model.fmax F x y), if F.zerosDiffer x y || F.isSNaN x || F.isSNaN y then "*" else fb F (F.fmax x y))
+  | "fdim" => some (fb F (Model.fdim F x y), fb F (F.fdim x y))
+  -- run time: the libm builtin; constant evaluation: gcem's series, not modelled (known finding)
+  | "fmod" => some (if p == .rt then fb F (F.fmod x y) else "*", fb F (F.fmod x y))
+  | "remainder" =>
+    -- glibc 2.36 returns a zero of the wrong sign for some subnormal divisors (IEC 60559: the sign of x); the sign
+    -- of a zero remainder of a non-zero x is therefore not compared
+    let r := F.remainder x y
+    let s := if F.isZero r && !F.isZero x then "*" else fb F r
+    some (if p == .rt then s else "*", s)
+  | "nextafter" => some (fb F (Model.nextafter F x y), fb F (F.nextafter x y))
+  | _ => none
+
+def joinWith (sep : String) (l : List String) : String := sep.intercalate l
+
+def step (_ : Unit) (l : Line) : Unit × String :=
+  let bad := ((), "bad-op\tbad-op")
+  let out (m s : String) := ((), m ++ "\t" ++ s)
+  match fmtOf ((l.int? "t").getD 32) with
+  | none => bad
+  | some F =>
+    let bits (k : String) : Option Nat := (l.int? k).map (toBits F)
+    match l.op with
+    | "u" | "cu" =>
+      match l.str? "f", bits "x" with
+      | some f, some x =>
+        match unary F (if l.op == "u" then .rt else .ct) f x with
+        | some (m, s) => out m s
+        | none => bad
+      | _, _ => bad
+    | "uv" =>
+      match l.list? "xs" with
+      | some xs =>
+        let xs := xs.map (toBits F)
+        let cols := unaryFns.map fun f => (xs.map fun x => (unary F .rt f x).getD ("?", "?"))
+        out (joinWith ";" (cols.map fun c => joinWith "," (c.map (·.1))))
+            (joinWith ";" (cols.map fun c => joinWith "," (c.map (·.2))))
+      | none => bad
+    | "b" | "cb" =>
+      match l.str? "f", bits "x", bits "y" with
+      | some f, some x, some y =>
+        match binary F (if l.op == "b" then .rt else .ct) f x y with
+        | some (m, s) => out m s
+        | none => bad
+      | _, _, _ => bad
+    | "bv" =>
+      match l.str? "f", l.list? "xs", l.list? "ys" with
+      | some f, some xs, some ys =>
+        if xs.length != ys.length then bad else
+        let rs := (xs.zip ys).map fun (x, y) => (binary F .rt f (toBits F x) (toBits F y)).getD ("?", "?")
+        out (joinWith "," (rs.map (·.1))) (joinWith "," (rs.map (·.2)))
+      | _, _, _ => bad
+    -- no Lean model (DESIGN §6): the harness itself judges these against libm / libstdc++
+    | "s" | "a" | "ca" | "c" => out "ok" "ok"
+    | _ => bad
+
+end Tetl.C16.Driver
+
+def main : IO Unit := Tetl.Proto.runDriver () Tetl.C16.Driver.step
